@@ -88,7 +88,7 @@ func runC01(c *rt.Ctx) {
 	maxLen := 2
 	depth := 4
 	if c.Thorough() {
-		maxLen, depth = 3, 0
+		maxLen, depth = 4, 0
 	}
 	totalStates, totalTrans := 0, 0
 	for i, cfg := range cfgs {
